@@ -197,7 +197,8 @@ impl Prop for C10 {
         let mut case = Case { prop: "C10".into(), seed, ..Default::default() };
         // c is either a plain key or a key whose action is a custom action only (it is an active
         // *input* while held although it holds no key)
-        let c_act = *r.pick(&["z", "z", "mlft", "(push-msg hi)", "mrgt"]);
+        // ... or a key with no action at all (XX): held, it is still an active input
+        let c_act = *r.pick(&["z", "z", "mlft", "(push-msg hi)", "mrgt", "XX"]);
         case.cfg = format!(
             "(defcfg delegate-to-first-layer yes)\n(defsrc a b c d e f s g h)\n(defvirtualkeys vk1 1 vk2 XX)\n(deflayer l0 x y {c_act} (layer-while-held l1) (layer-switch l1) (layer-switch l0) {swt} (fork f7 f8 ({fork_trig})) (layer-while-held l2))\n(deflayer l1 _ _ _ _ _ _ _ _ _)\n(deflayer l2 _ _ _ _ _ _ _ _ _)\n"
         );
@@ -282,6 +283,7 @@ impl Prop for C10 {
         let (Some(sw), Some(fork)) = (sw, fork) else { return RunOut::skip("model-cannot-read-config") };
         let swv = sw.list().unwrap_or(&[]).to_vec();
         let fork_trig = fork.list().and_then(|v| v.get(3)).and_then(|t| t.list()).and_then(|t| t.first()).and_then(|t| t.atom()).unwrap_or("x").to_string();
+        let c_is_noop = layer0.get(4).and_then(|x| x.atom()) == Some("XX");
         // walk the history, maintaining the reference state
         let names = ["a", "b", "c", "d", "e", "f", "s", "g", "h"];
         let name_of = |c: u16| names.iter().find(|n| oscode_of(n) == c).copied().unwrap_or("?");
@@ -388,7 +390,15 @@ impl Prop for C10 {
                                     ),
                                     // cause of a known finding: more cases fire at once than the
                                     // 8-entry action queue holds
-                                    if expected.len() > 8 { vec!["more-than-8-firing-cases".to_string()] } else { vec![] },
+                                    // cause of another known finding: a held key whose action leaves no
+                                    // state in the layout (XX) is not seen by (input real k)
+                                    if expected.len() > 8 {
+                                        vec!["more-than-8-firing-cases".to_string()]
+                                    } else if c_is_noop && rs.inputs_down.iter().any(|k| k == "c") {
+                                        vec!["held-input-key-has-no-state".to_string()]
+                                    } else {
+                                        vec![]
+                                    },
                                 );
                             }
                             o.count(if n == "s" { "evaluated.switch" } else { "evaluated.fork" }, 1);
